@@ -13,7 +13,9 @@ package main
 
 import (
 	"encoding/json"
+	"errors"
 	"fmt"
+	"os"
 	"sort"
 	"strings"
 
@@ -22,6 +24,7 @@ import (
 	"github.com/nspcc-dev/neo-go/pkg/core/native"
 	"github.com/nspcc-dev/neo-go/pkg/core/native/nativenames"
 	"github.com/nspcc-dev/neo-go/pkg/core/native/noderoles"
+	"github.com/nspcc-dev/neo-go/pkg/core/state"
 	"github.com/nspcc-dev/neo-go/pkg/core/transaction"
 	"github.com/nspcc-dev/neo-go/pkg/crypto/keys"
 	"github.com/nspcc-dev/neo-go/pkg/io"
@@ -33,6 +36,7 @@ import (
 	"github.com/nspcc-dev/neo-go/pkg/util"
 	"github.com/nspcc-dev/neo-go/pkg/vm/emit"
 	"github.com/nspcc-dev/neo-go/pkg/vm/opcode"
+	"github.com/nspcc-dev/neo-go/pkg/vm/stackitem"
 )
 
 func init() {
@@ -54,6 +58,14 @@ type c16Env struct {
 	// permission universe on chain
 	callees []*neotest.Contract        // C0 {G0}, C1 {G0,G1}, C2 {}
 	callers map[string]*neotest.Contract // canonical JSON of the permission list -> deployed caller
+	// the permission contracts live on their own chain over a LevelDB directory, so that the node can be restarted
+	pc         *c16Chain
+	pcDir      string
+	pcDirty    bool // something was deployed since the last restart
+	pcReopened bool
+	pcBroken   bool // the restart failed: reported once, the remaining restart cases are skipped
+	// cache of hand-built contract states for the stored-form cases
+	stCallee map[string]*state.Contract
 }
 
 type c16Raw func(w *io.BinWriter) // code leaving exactly one item on the stack
@@ -598,6 +610,11 @@ type c16PermIn struct {
 	Callee c16Callee `json:"callee"`
 	Method string    `json:"method"`
 	Safe   bool      `json:"safe,omitempty"`
+	// permcall: run on the node restarted from the same DB; permstored: 1 = every Permission/Group/Method through
+	// ToStackItem/FromStackItem, 2 = whole manifests through ToStackItem/FromStackItem, 3 = whole contract states
+	// through stackitem.SerializeConvertible/DeserializeConvertible (the form kept in the DAO)
+	Reopened bool `json:"reopened,omitempty"`
+	Form     int  `json:"form,omitempty"`
 }
 type c16PermOut struct {
 	Allowed bool `json:"allowed"`
@@ -748,10 +765,18 @@ func (env *c16Env) ensurePermContracts() (err error) {
 			err = fmt.Errorf("perm contracts: %v", r)
 		}
 	}()
+	env.pcDir, err = os.MkdirTemp("", "auth-c16-db-")
+	if err != nil {
+		return err
+	}
+	if env.pc, err = c16NewChainAt(env.pcDir); err != nil {
+		return err
+	}
+	env.pcDirty = true
 	ret := []byte{byte(opcode.RET)}
 	groups := [][]*keys.PrivateKey{{c16Key(0)}, {c16Key(0), c16Key(1)}, {}}
 	for i, gs := range groups {
-		ct, err := env.c.deploy(c16ContractSpec{Name: fmt.Sprintf("C%d", i), Groups: gs, Methods: []c16Method{
+		ct, err := env.pc.deploy(c16ContractSpec{Name: fmt.Sprintf("C%d", i), Groups: gs, Methods: []c16Method{
 			{Name: "a", Void: true, Body: ret}, {Name: "b", Void: true, Body: ret}, {Name: "c", Void: true, Body: ret},
 			{Name: "s", Void: true, Safe: true, Body: ret}}})
 		if err != nil {
@@ -773,11 +798,12 @@ func (env *c16Env) callerFor(perms []c16Perm) (*neotest.Contract, error) {
 	for _, p := range perms {
 		ps = append(ps, env.mkPerm(p, true))
 	}
-	ct, err := env.c.deploy(c16ContractSpec{Name: fmt.Sprintf("K%d", len(env.callers)), Perms: ps, Methods: []c16Method{
+	ct, err := env.pc.deploy(c16ContractSpec{Name: fmt.Sprintf("K%d", len(env.callers)), Perms: ps, Methods: []c16Method{
 		{Name: "fwd", NParams: 4, Body: c16SyscallBody(interopnames.SystemContractCall, false)}}})
 	if err != nil {
 		return nil, err
 	}
+	env.pcDirty = true
 	env.callers[string(kb)] = ct
 	return ct, nil
 }
@@ -797,12 +823,30 @@ func (env *c16Env) runPermCall(co *caseOut, in c16PermIn) {
 		co.violation("permcall", "harness: "+err.Error(), in, nil)
 		return
 	}
+	if env.pcBroken {
+		return
+	}
+	if in.Reopened && (env.pcDirty || !env.pcReopened) {
+		// restart the node: close (persists and closes the DB), open a new Blockchain over the same directory
+		if err := env.reopenPerm(); err != nil {
+			msg := err.Error()
+			if i := strings.Index(msg, "Error:"); i >= 0 {
+				msg = strings.Join(strings.Fields(msg[i:]), " ")
+			}
+			if len(msg) > 300 {
+				msg = msg[:300]
+			}
+			co.violation("permcall", "the node cannot be restarted from the DB it wrote (contract states are rebuilt from their stored form): "+msg, in, nil)
+			env.pcBroken = true
+			return
+		}
+	}
 	callee := env.callees[in.Callee.Hash]
 	script := c16Code(func(w *io.BinWriter) { c16EmitCall(w, k.Hash, "fwd", 15, callee.Hash, in.Method, 15, []any{}) })
-	obs, _ := env.c.invoke(script, env.signers, k.Hash, 2, trigger.Application, callflag.All, false)
+	obs, _ := env.pc.invoke(script, env.signers, k.Hash, 2, trigger.Application, callflag.All, false)
 	halted := obs.State == "HALT"
 	if !halted && !strings.Contains(obs.Fault, "disallowed method call") {
-		co.violation("permcall", "harness: unexpected fault: "+obs.Fault, in, obs)
+		co.violation("permcall", "unexpected fault of the cross-contract call (neither HALT nor a permission refusal): "+obs.Fault, in, obs)
 		return
 	}
 	ran := false
@@ -822,8 +866,235 @@ func (env *c16Env) runPermCall(co *caseOut, in c16PermIn) {
 	if halted {
 		tag = "halt"
 	}
+	if in.Reopened {
+		tag += "/reopened"
+	}
 	co.add("permcall", fmt.Sprintf("%dperm/%s", len(in.Ops), tag), !in.Safe, in, c16PermOut{halted, c16F6Shape(in, halted)},
 		fmt.Sprintf("CPermCall %s %s %s%%string %s %s", coqList(ps), c16CoqCallee(in.Callee), coqStr(in.Method), coqBool(in.Safe), coqBool(halted)))
+}
+
+func (env *c16Env) reopenPerm() (err error) {
+	defer func() {
+		if r := recover(); r != nil {
+			err = fmt.Errorf("%v", r)
+		}
+	}()
+	h := env.pc.bc.BlockHeight()
+	env.pc.close()
+	if env.pc, err = c16NewChainAt(env.pcDir); err != nil {
+		return err
+	}
+	if env.pc.bc.BlockHeight() != h {
+		return fmt.Errorf("height %d after restart, %d before", env.pc.bc.BlockHeight(), h)
+	}
+	env.pcDirty, env.pcReopened = false, true
+	return nil
+}
+
+func (env *c16Env) closePerm() {
+	if env.pc != nil && !env.pcBroken {
+		catch(func() { env.pc.close() })
+	}
+	if env.pcDir != "" {
+		os.RemoveAll(env.pcDir)
+	}
+}
+
+// ---------- stored form ----------
+
+// the real item of a permission as a term of Auth/PermStore.v sitem
+func c16CoqItem(it stackitem.Item) string {
+	str, ok := it.Value().([]stackitem.Item)
+	if it.Type() != stackitem.StructT || !ok {
+		return "(SStruct [])"
+	}
+	parts := make([]string, len(str))
+	for i, x := range str {
+		switch {
+		case x.Type() == stackitem.AnyT:
+			parts[i] = "SNull"
+		case x.Type() == stackitem.ByteArrayT && i == 0:
+			b, _ := x.TryBytes()
+			id := 0
+			for j := 0; j < 3; j++ {
+				if len(b) == 20 && string(b) == string(c16HashU(j).BytesBE()) {
+					id = j + 1
+				}
+			}
+			for j := 0; j < 2; j++ {
+				if string(b) == string(c16Key(j).PublicKey().Bytes()) {
+					id = j + 1
+				}
+			}
+			parts[i] = fmt.Sprintf("(SBytes %d %d)", len(b), id)
+		case x.Type() == stackitem.ArrayT:
+			var ms []string
+			for _, y := range x.Value().([]stackitem.Item) {
+				b, err := y.TryBytes()
+				if err != nil || y.Type() != stackitem.ByteArrayT {
+					ms = append(ms, "SNull")
+				} else {
+					ms = append(ms, "(SStr "+coqStr(string(b))+"%string)")
+				}
+			}
+			parts[i] = "(SArray " + coqList(ms) + ")"
+		default:
+			parts[i] = "(SStruct [])"
+		}
+	}
+	return "(SStruct " + coqList(parts) + ")"
+}
+
+func (env *c16Env) runPermItem(co *caseOut, in c16PermIn) {
+	if len(in.Ops) != 1 {
+		return
+	}
+	p := env.mkPerm(in.Ops[0], false)
+	var it stackitem.Item
+	if pn := catch(func() { it = p.ToStackItem() }); pn != "" {
+		co.violation("permitem", "panic: "+pn, in, nil)
+		return
+	}
+	term := c16CoqItem(it)
+	co.add("permitem", in.Ops[0].D[:1], true, in, term, fmt.Sprintf("CPermItem %s %s", c16CoqPerm(in.Ops[0]), term))
+}
+
+func c16RT[T any, P interface {
+	*T
+	ToStackItem() stackitem.Item
+	FromStackItem(stackitem.Item) error
+}](x P) (*T, error) {
+	y := P(new(T))
+	if err := y.FromStackItem(x.ToStackItem()); err != nil {
+		return nil, err
+	}
+	return (*T)(y), nil
+}
+
+// the callInternal decision taken on the STORED forms of caller and callee, to be compared with the model's answer
+// for the original permissions
+func (env *c16Env) runPermStored(co *caseOut, in c16PermIn) {
+	in.Safe = in.Method == "s"
+	ret := []byte{byte(opcode.RET)}
+	var gk []*keys.PrivateKey
+	for _, g := range in.Callee.Groups {
+		gk = append(gk, c16Key(g))
+	}
+	key := fmt.Sprint(in.Callee.Hash, in.Callee.Groups)
+	if env.stCallee == nil {
+		env.stCallee = map[string]*state.Contract{}
+	}
+	callee, ok := env.stCallee[key]
+	if !ok {
+		ct := c16Build(util.Uint160{1}, c16ContractSpec{Name: "callee", Groups: gk, Methods: []c16Method{
+			{Name: "a", Void: true, Body: ret}, {Name: "b", Void: true, Body: ret}, {Name: "c", Void: true, Body: ret},
+			{Name: "s", Void: true, Safe: true, Body: ret}}})
+		callee = &state.Contract{ContractBase: state.ContractBase{ID: 7, Hash: c16HashU(in.Callee.Hash), NEF: *ct.NEF, Manifest: *ct.Manifest}}
+		env.stCallee[key] = callee
+	}
+	var ps []manifest.Permission
+	for _, p := range in.Ops {
+		ps = append(ps, env.mkPerm(p, false))
+	}
+	kt := c16Build(util.Uint160{2}, c16ContractSpec{Name: "caller", Perms: ps, Methods: []c16Method{{Name: "x", Void: true, Body: ret}}})
+	caller := &state.Contract{ContractBase: state.ContractBase{ID: 8, Hash: kt.Hash, NEF: *kt.NEF, Manifest: *kt.Manifest}}
+
+	var callerM, calleeM *manifest.Manifest
+	calleeH := callee.Hash
+	var err error
+	fail := func(what string, e error) {
+		co.violation("permstored", fmt.Sprintf("stored form cannot be read back (%s): %v", what, e), in, nil)
+	}
+	pn := catch(func() {
+		switch in.Form {
+		case 1:
+			cm, km := callee.Manifest, caller.Manifest
+			km.Permissions = make([]manifest.Permission, len(caller.Manifest.Permissions))
+			for i := range caller.Manifest.Permissions {
+				var q *manifest.Permission
+				if q, err = c16RT(&caller.Manifest.Permissions[i]); err != nil {
+					return
+				}
+				km.Permissions[i] = *q
+			}
+			cm.Groups = make([]manifest.Group, len(callee.Manifest.Groups))
+			for i := range callee.Manifest.Groups {
+				var g *manifest.Group
+				if g, err = c16RT(&callee.Manifest.Groups[i]); err != nil {
+					return
+				}
+				cm.Groups[i] = *g
+			}
+			cm.ABI.Methods = make([]manifest.Method, len(callee.Manifest.ABI.Methods))
+			for i := range callee.Manifest.ABI.Methods {
+				var md *manifest.Method
+				if md, err = c16RT(&callee.Manifest.ABI.Methods[i]); err != nil {
+					return
+				}
+				cm.ABI.Methods[i] = *md
+			}
+			callerM, calleeM = &km, &cm
+		case 2:
+			for _, pr := range []struct {
+				src *manifest.Manifest
+				dst **manifest.Manifest
+			}{{&caller.Manifest, &callerM}, {&callee.Manifest, &calleeM}} {
+				var it stackitem.Item
+				if it, err = pr.src.ToStackItem(); err != nil {
+					return
+				}
+				m := new(manifest.Manifest)
+				if err = m.FromStackItem(it); err != nil {
+					return
+				}
+				*pr.dst = m
+			}
+		default:
+			var out [2]*state.Contract
+			for i, src := range []*state.Contract{caller, callee} {
+				var b []byte
+				if b, err = stackitem.SerializeConvertible(src); err != nil {
+					return
+				}
+				out[i] = new(state.Contract)
+				if err = stackitem.DeserializeConvertible(b, out[i]); err != nil {
+					return
+				}
+			}
+			callerM, calleeM, calleeH = &out[0].Manifest, &out[1].Manifest, out[1].Hash
+		}
+	})
+	if pn != "" {
+		co.violation("permstored", "panic in the stored-form round trip: "+pn, in, nil)
+		return
+	}
+	if err != nil {
+		fail(fmt.Sprintf("form %d", in.Form), err)
+		return
+	}
+	md := calleeM.ABI.GetMethod(in.Method, 0)
+	if md == nil {
+		fail("method lost", errors.New(in.Method))
+		return
+	}
+	if md.Safe != in.Safe {
+		co.violation("permstored", fmt.Sprintf("safe flag of method %q changed in the stored form: %v", in.Method, md.Safe), in, nil)
+	}
+	var permitted bool
+	if pn := catch(func() { permitted = md.Safe || callerM.CanCall(calleeH, calleeM, md.Name) }); pn != "" {
+		co.violation("permstored", "panic when the permission check runs on the stored form: "+pn, in, nil)
+		return
+	}
+	ps2 := make([]string, len(in.Ops))
+	for i, p := range in.Ops {
+		ps2[i] = c16CoqPerm(p)
+	}
+	tag := "deny"
+	if permitted {
+		tag = "allow"
+	}
+	co.add("permstored", fmt.Sprintf("form%d/%dperm/%s", in.Form, len(in.Ops), tag), !in.Safe, in, c16PermOut{permitted, c16F6Shape(in, permitted)},
+		fmt.Sprintf("CPermStored %d %s %s %s%%string %s %s", in.Form, coqList(ps2), c16CoqCallee(in.Callee), coqStr(in.Method), coqBool(in.Safe), coqBool(permitted)))
 }
 
 // ---------- driver ----------
@@ -860,6 +1131,7 @@ func runC16(cmd string, args []string) error {
 		return err
 	}
 	defer env.c.close()
+	defer env.closePerm()
 	want := func(k string) bool { return *only == "" || strings.Contains(","+*only+",", ","+k+",") }
 
 	if cf.replay != "" {
@@ -899,6 +1171,17 @@ func runC16(cmd string, args []string) error {
 				var in c16PermIn
 				json.Unmarshal(x.Input, &in)
 				env.runPermCall(co, in)
+			case "permitem":
+				var in c16PermIn
+				json.Unmarshal(x.Input, &in)
+				env.runPermItem(co, in)
+			case "permstored":
+				var in c16PermIn
+				json.Unmarshal(x.Input, &in)
+				if in.Form < 1 || in.Form > 3 {
+					in.Form = 3
+				}
+				env.runPermStored(co, in)
 			default:
 				return fmt.Errorf("unknown kind %q", x.Kind)
 			}
@@ -1043,31 +1326,80 @@ func runC16(cmd string, args []string) error {
 			}
 		}
 	}
-	if ex && want("permcall") {
-		// every single permission as the whole manifest of a deployed caller x the three deployed callees x methods
+	if ex && want("permitem") {
 		for _, p := range perms {
-			for h := 0; h < 3; h++ {
-				for _, m := range []string{"a", "b", "c", "s"} {
-					env.runPermCall(co, c16PermIn{Ops: []c16Perm{p}, Callee: c16Callee{Hash: h}, Method: m})
+			env.runPermItem(co, c16PermIn{Ops: []c16Perm{p}})
+		}
+	}
+	if ex && want("permstored") {
+		// the decision of callInternal taken on the stored forms: every single permission x callee x method x 3 forms
+		for form := 1; form <= 3; form++ {
+			for _, p := range perms {
+				for _, c := range callees {
+					for _, m := range []string{"a", "b", "c", "s"} {
+						env.runPermStored(co, c16PermIn{Ops: []c16Perm{p}, Callee: c, Method: m, Form: form})
+					}
 				}
+			}
+			for _, c := range callees {
+				env.runPermStored(co, c16PermIn{Ops: []c16Perm{}, Callee: c, Method: "a", Form: form})
 			}
 		}
 	}
+	if !ex && want("permstored") {
+		for i := 0; i < cf.n*2; i++ {
+			ds := append([]string{}, c16PermDescs...)
+			for j := len(ds) - 1; j > 0; j-- {
+				q := r.intn(j + 1)
+				ds[j], ds[q] = ds[q], ds[j]
+			}
+			var ps []c16Perm
+			for _, d := range ds[:2+r.intn(3)] {
+				ps = append(ps, c16Perm{d, pick(r, c16PermMethods)})
+			}
+			env.runPermStored(co, c16PermIn{Ops: ps, Callee: pick(r, callees), Method: pick(r, []string{"a", "b", "c", "s"}), Form: 1 + r.intn(3)})
+		}
+	}
+	if ex && want("permcall") {
+		// every single permission as the whole manifest of a deployed caller x the three deployed callees x methods;
+		// then the same calls on the node restarted from the same DB
+		var done []c16PermIn
+		for _, p := range perms {
+			for h := 0; h < 3; h++ {
+				for _, m := range []string{"a", "b", "c", "s"} {
+					in := c16PermIn{Ops: []c16Perm{p}, Callee: c16Callee{Hash: h}, Method: m}
+					env.runPermCall(co, in)
+					done = append(done, in)
+				}
+			}
+		}
+		for _, in := range done {
+			in.Reopened = true
+			env.runPermCall(co, in)
+		}
+	}
 	if !ex && want("permcall") {
+		var later []c16PermIn
 		for i := 0; i < cf.n/4+2; i++ {
 			p1, p2 := pick(r, perms), pick(r, perms)
 			if p1.D == p2.D {
 				continue
 			}
 			for h := 0; h < 3; h++ {
-				env.runPermCall(co, c16PermIn{Ops: []c16Perm{p1, p2}, Callee: c16Callee{Hash: h}, Method: pick(r, []string{"a", "b", "c", "s"})})
+				in := c16PermIn{Ops: []c16Perm{p1, p2}, Callee: c16Callee{Hash: h}, Method: pick(r, []string{"a", "b", "c", "s"})}
+				env.runPermCall(co, in)
+				later = append(later, in)
 			}
+		}
+		for _, in := range later {
+			in.Reopened = true
+			env.runPermCall(co, in)
 		}
 	}
 	co.extra["exhaustive"] = ex && *only == ""
 	if ex {
 		co.extra["x_universe"] = "sys: all system calls of the table x 16 flag sets (block-trigger calls: the node's flag set and the refused ones); native: all methods (latest hard-fork set) x 16 flag sets x {called by the entry script, called by a contract}; " +
-			"chain: all chains of length 0 and 1 (16 x 3 hop kinds x 16 x 5 finals); perm1: 6 descriptors x 5 method lists x 12 callees x 3 methods; permcall: 30 single-permission deployed callers x 3 deployed callees x 4 methods; " +
+			"chain: all chains of length 0 and 1 (16 x 3 hop kinds x 16 x 5 finals); perm1: 6 descriptors x 5 method lists x 12 callees x 3 methods; permitem: the 30 permissions' real stack items; permstored: 30 permissions x 12 callees x 4 methods x 3 stored forms; permcall: 30 single-permission deployed callers x 3 deployed callees x 4 methods, before and after a node restart over the same LevelDB; " +
 			"thorough adds chains of length 2 over 6 flag sets and all pairs of permissions with distinct descriptors"
 	}
 	co.extra["x_witnessed"] = c16Witnessed(co)
